@@ -198,7 +198,7 @@ def check(run):
     run.assumptions = ["asyncio ordering inside one instant and shield_cancel (the guard sleep cannot be "
                        "interrupted) are not modelled: the observed interleaving is the acceptor's input",
                        "stop_timeout is long enough for the pending work (the documented precondition)"]
-    cases = [gen_case(run.rng) for _ in range(500 if run.tier == 'quick' else 6000)]
+    cases = [gen_case(run.rng) for _ in range(500 if run.tier == 'quick' else 18000)]
     for c in cases:
         run.count('mode_' + c['mode'])
         run.count('guard' if c['guard_us'] else 'noguard')
